@@ -13,6 +13,7 @@ import (
 	"os/exec"
 	"path/filepath"
 	"reflect"
+	"regexp"
 	"sort"
 	"strings"
 	"time"
@@ -383,17 +384,17 @@ func specials() map[string]*gs.Schema {
 				{Name: "note", Schema: &gs.Schema{Kind: gs.KString, MinLen: gs.I(2)}}}}}},
 		"WithAddl": {Kind: gs.KObject, Props: []gs.Prop{{Name: "id", Schema: &gs.Schema{Kind: gs.KInteger}, Required: true}, {Name: "name", Schema: str()}},
 			Addl: &gs.Schema{Kind: gs.KInteger, Min: gs.I(1)}},
-		"MaxOnly": {Kind: gs.KObject, MaxProps: gs.I(2), Props: []gs.Prop{{Name: "a", Schema: str()}, {Name: "b", Schema: str()}, {Name: "c", Schema: str()}}},
-		"MinOnly": {Kind: gs.KObject, MinProps: gs.I(2), Props: []gs.Prop{{Name: "a", Schema: str()}, {Name: "b", Schema: str()}}},
+		"MaxOnly":    {Kind: gs.KObject, MaxProps: gs.I(2), Props: []gs.Prop{{Name: "a", Schema: str()}, {Name: "b", Schema: str()}, {Name: "c", Schema: str()}}},
+		"MinOnly":    {Kind: gs.KObject, MinProps: gs.I(2), Props: []gs.Prop{{Name: "a", Schema: str()}, {Name: "b", Schema: str()}}},
 		"BothBounds": {Kind: gs.KObject, MinProps: gs.I(1), MaxProps: gs.I(2), Props: []gs.Prop{{Name: "a", Schema: str()}, {Name: "b", Schema: str()}, {Name: "c", Schema: str()}}},
 		"ZeroItems": {Kind: gs.KObject, Props: []gs.Prop{
 			{Name: "counts", Schema: &gs.Schema{Kind: gs.KArray, Items: &gs.Schema{Kind: gs.KInteger, Min: gs.I(1)}}},
 			{Name: "names", Schema: &gs.Schema{Kind: gs.KArray, Items: &gs.Schema{Kind: gs.KString, MinLen: gs.I(2)}}},
 			{Name: "grid", Schema: &gs.Schema{Kind: gs.KArray, Items: &gs.Schema{Kind: gs.KArray, Items: &gs.Schema{Kind: gs.KInteger, Min: gs.I(1)}}}}}},
 		// polymorphism: base type with discriminator, a subtype that sets x-class, one that does not, and containers
-		"Pet": {Kind: gs.KObject, Discriminator: "petType", Props: []gs.Prop{{Name: "petType", Schema: str(), Required: true}, {Name: "name", Schema: str(), Required: true}}},
-		"Dog": {Kind: gs.KObject, XClass: "com.acme.Dog", AllOf: []*gs.Schema{{Kind: gs.KRef, Ref: "Pet"}, {Kind: gs.KObject, Props: []gs.Prop{{Name: "bark", Schema: str()}}}}},
-		"Cat": {Kind: gs.KObject, AllOf: []*gs.Schema{{Kind: gs.KRef, Ref: "Pet"}, {Kind: gs.KObject, Props: []gs.Prop{{Name: "lives", Schema: &gs.Schema{Kind: gs.KInteger}}}}}},
+		"Pet":    {Kind: gs.KObject, Discriminator: "petType", Props: []gs.Prop{{Name: "petType", Schema: str(), Required: true}, {Name: "name", Schema: str(), Required: true}}},
+		"Dog":    {Kind: gs.KObject, XClass: "com.acme.Dog", AllOf: []*gs.Schema{{Kind: gs.KRef, Ref: "Pet"}, {Kind: gs.KObject, Props: []gs.Prop{{Name: "bark", Schema: str()}}}}},
+		"Cat":    {Kind: gs.KObject, AllOf: []*gs.Schema{{Kind: gs.KRef, Ref: "Pet"}, {Kind: gs.KObject, Props: []gs.Prop{{Name: "lives", Schema: &gs.Schema{Kind: gs.KInteger}}}}}},
 		"Kennel": {Kind: gs.KObject, Props: []gs.Prop{{Name: "resident", Schema: &gs.Schema{Kind: gs.KRef, Ref: "Pet"}}, {Name: "all", Schema: &gs.Schema{Kind: gs.KArray, Items: &gs.Schema{Kind: gs.KRef, Ref: "Pet"}}}}},
 		"Unsigned": {Kind: gs.KObject, Props: []gs.Prop{
 			{Name: "n", Schema: &gs.Schema{Kind: gs.KInteger, Format: "uint32", Max: gs.I(10), XMax: true}},
@@ -512,7 +513,11 @@ func main() {
 		builds++
 		if err != nil {
 			cov["build-error"]++
-			v02 = append(v02, violation{Key: "c02/generated-models-do-not-build", What: "generate model exits 0 but the models do not compile", Input: map[string]interface{}{"spec": json.RawMessage(specJSON)}, Detail: tail(string(bo))})
+			bkey := "c02/generated-models-do-not-build"
+			if regexp.MustCompile(`\.validate\w+ItemsEnum undefined`).Match(bo) {
+				bkey += "[items-enum-validator-of-nested-array-alias-undefined]"
+			}
+			v02 = append(v02, violation{Key: bkey, What: "generate model exits 0 but the models do not compile", Input: map[string]interface{}{"spec": json.RawMessage(specJSON)}, Detail: tail(string(bo))})
 			continue
 		}
 		run := exec.Command(filepath.Join(dir, "drv"), cf, rf)
@@ -564,6 +569,18 @@ func main() {
 					_ = json.Unmarshal(results[i].Out, &o)
 					if countRule(defs[c.Def], defs, o, 0) == genOK {
 						cls = "property-count-of-remarshalled-object"
+					}
+				}
+				if strings.HasPrefix(cls, "should-have") && genOK {
+					// the count constraint sits on the values of a map (additionalProperties): the generated code does not check it there
+					under, elsewhere := countViolations(defs[c.Def], defs, d, false, 0)
+					if under && !elsewhere {
+						cls = "property-count-of-map-value-not-checked"
+					}
+				}
+				if cls == "required" && !genOK {
+					if name := strings.TrimSuffix(results[i].Err, " in body is required"); name != results[i].Err && (emptyObjectMapValue(defs[c.Def], defs, d, name, 0) || emptyObjectMapValue(defs[c.Def], defs, er, name, 0)) {
+						cls = "empty-object-map-value-treated-as-missing"
 					}
 				}
 				if cls == "type" && strings.Contains(refMsg, "must be of type date") && strings.Contains(string(c.Doc), `""`) {
@@ -627,8 +644,8 @@ func main() {
 		sort.Slice(vs, func(i, j int) bool { return vs[i].Key < vs[j].Key })
 		rep := map[string]interface{}{
 			"evaluations": evals, "distinct_nontrivial": distinct,
-			"rule":       "specs of ~24 generated definitions (objects with required/optional properties, arrays, maps, aliases, references; every validation keyword; integer formats incl. unsigned) plus fixed special definitions (allOf with inline member, additionalProperties next to properties, lone minProperties / maxProperties, arrays whose item constraints exclude the zero value, unsigned bounds with asymmetric exclusivity); documents per definition: a valid one, and single deviations at every node: boundary values of every constraint, zero values, wrong types, missing properties, unknown properties. The generated models are compiled and run. Distinct by (spec, definition, document); every document but the first of a definition is a deviation, hence non-trivial.",
-			"samples":    samples, "coverage": cov, "violations": vs, "builds": builds, "model_cases": len(coqCases), "rt_model_cases": len(rtCases), "wall_s": time.Since(t0).Seconds(),
+			"rule":    "specs of ~24 generated definitions (objects with required/optional properties, arrays, maps, aliases, references; every validation keyword; integer formats incl. unsigned) plus fixed special definitions (allOf with inline member, additionalProperties next to properties, lone minProperties / maxProperties, arrays whose item constraints exclude the zero value, unsigned bounds with asymmetric exclusivity); documents per definition: a valid one, and single deviations at every node: boundary values of every constraint, zero values, wrong types, missing properties, unknown properties. The generated models are compiled and run. Distinct by (spec, definition, document); every document but the first of a definition is a deviation, hence non-trivial.",
+			"samples": samples, "coverage": cov, "violations": vs, "builds": builds, "model_cases": len(coqCases), "rt_model_cases": len(rtCases), "wall_s": time.Since(t0).Seconds(),
 		}
 		b, _ := json.MarshalIndent(rep, "", " ")
 		_ = os.WriteFile(filepath.Join(*out, x.name), b, 0o644)
@@ -653,6 +670,91 @@ func classify(s *gs.Schema, defs map[string]*gs.Schema, d interface{}, msg strin
 		}
 	}
 	return "other"
+}
+
+// countViolations: object nodes whose minProperties / maxProperties the document violates — under a map value, elsewhere
+func countViolations(s *gs.Schema, defs map[string]*gs.Schema, d interface{}, underMap bool, depth int) (under, elsewhere bool) {
+	s = resolve(s, defs)
+	if s == nil || depth > 10 {
+		return
+	}
+	switch s.Kind {
+	case gs.KObject:
+		m, ok := d.(map[string]interface{})
+		if !ok {
+			return
+		}
+		if (s.MinProps != nil && int64(len(m)) < *s.MinProps) || (s.MaxProps != nil && int64(len(m)) > *s.MaxProps) {
+			if underMap {
+				under = true
+			} else {
+				elsewhere = true
+			}
+		}
+		for _, p := range s.Props {
+			if v, ok := m[p.Name]; ok {
+				u, e := countViolations(p.Schema, defs, v, false, depth+1)
+				under, elsewhere = under || u, elsewhere || e
+			}
+		}
+	case gs.KArray:
+		if xs, ok := d.([]interface{}); ok {
+			for _, x := range xs {
+				u, e := countViolations(s.Items, defs, x, false, depth+1)
+				under, elsewhere = under || u, elsewhere || e
+			}
+		}
+	case gs.KMap:
+		if m, ok := d.(map[string]interface{}); ok {
+			for _, x := range m {
+				u, e := countViolations(s.Addl, defs, x, true, depth+1)
+				under, elsewhere = under || u, elsewhere || e
+			}
+		}
+	}
+	return
+}
+
+// emptyObjectMapValue: is [name] a key of a map (at any depth) whose value in the document is an empty object?
+func emptyObjectMapValue(s *gs.Schema, defs map[string]*gs.Schema, d interface{}, name string, depth int) bool {
+	s = resolve(s, defs)
+	if s == nil || depth > 10 {
+		return false
+	}
+	last := name
+	if i := strings.LastIndex(name, "."); i >= 0 {
+		last = name[i+1:]
+	}
+	switch s.Kind {
+	case gs.KMap:
+		if m, ok := d.(map[string]interface{}); ok {
+			for k, x := range m {
+				if e, isObj := x.(map[string]interface{}); isObj && len(e) == 0 && k == last {
+					return true
+				}
+				if emptyObjectMapValue(s.Addl, defs, x, name, depth+1) {
+					return true
+				}
+			}
+		}
+	case gs.KObject:
+		if m, ok := d.(map[string]interface{}); ok {
+			for _, p := range s.Props {
+				if v, ok := m[p.Name]; ok && emptyObjectMapValue(p.Schema, defs, v, name, depth+1) {
+					return true
+				}
+			}
+		}
+	case gs.KArray:
+		if xs, ok := d.([]interface{}); ok {
+			for _, x := range xs {
+				if emptyObjectMapValue(s.Items, defs, x, name, depth+1) {
+					return true
+				}
+			}
+		}
+	}
+	return false
 }
 
 // countRule: would every object node with minProperties/maxProperties accept the number of properties that the
